@@ -321,6 +321,29 @@ fn order_replay() {
         }
         Err(e) => println!("OBSERVED: reading reachable storage failed after collections: {}", e.to_string().chars().take(160).collect::<String>()),
     }
+    // second scenario: the full collection is started inside `make-vector` (Heap::allocate_vector_iter) while a vector
+    // is reachable only through a box; then every free vector slot is handed out again
+    let program2 = r#"
+        (define holder (box (vector 'a 'b 'c)))
+        (define (build n acc) (if (= n 0) acc (build (- n 1) (cons (make-vector 1 n) acc))))
+        (define ballast (build 30000 '()))
+        (define (vchurn n) (if (= n 0) 'done (begin (make-vector 3 'junk) (vchurn (- n 1)))))
+        (vchurn 150000)
+        (list (vector->list (unbox holder)) (length ballast))
+    "#;
+    let mut engine = Engine::new();
+    match engine.compile_and_run_raw_program(program2) {
+        Ok(vals) => {
+            let got = vals.last().map(|v| v.to_string()).unwrap_or_default();
+            let want = engine.compile_and_run_raw_program("(list (list 'a 'b 'c) 30000)").unwrap().pop().unwrap().to_string();
+            if got != want {
+                println!("OBSERVED: a vector reachable only through a box lost its contents across a collection started by make-vector: got {} instead of {}", got, want);
+            } else {
+                println!("COMPLETED (make-vector scenario): {}", got);
+            }
+        }
+        Err(e) => println!("OBSERVED: reading a vector reachable only through a box failed after a collection started by make-vector: {}", e.to_string().chars().take(160).collect::<String>()),
+    }
 }
 
 // Native replay for the opcode-scan check (C06, E3f): a function compiled earlier assigns a global with `set!`
